@@ -854,6 +854,15 @@ def run_v4_pair(case):
                               cbid='1234567890' if same else f'123456789{k}', seed=5 if same else None,
                               shuffle_bls=False, chunks={} if False else None)
         ds.append(syn.dataset)
+        if case.get('reopen'):
+            # the same capture block (same telstate, same store, hence the same stored dask arrays) opened a second
+            # time with another choice of products
+            from katdal.datasources import TelstateDataSource, view_l0_capture_stream
+            from katdal.visdatav4 import VisibilityDataV4
+            view, cbid_out, sn = view_l0_capture_stream(syn.telstate, syn.cbid, syn.stream)
+            src = TelstateDataSource(view, cbid_out, sn, chunk_store=syn.store)
+            ds.append(VisibilityDataV4(src, applycal=case['reopen']))
+            break
     with dask.config.set(scheduler='synchronous'):
         for what in ('vis', 'weights', 'flags'):
             a, b = getattr(ds[0], what), getattr(ds[1], what)
@@ -862,7 +871,9 @@ def run_v4_pair(case):
             got = DaskLazyIndexer.get([a, b], np.s_[:, :, :])
             for k in range(2):
                 if not same_array(alone[k], np.asarray(joint[k])) or not same_array(alone[k], np.asarray(got[k])):
-                    return (f'two data sets opened with applycal={case["products"]!r} and computed in one dask graph: '
+                    return (f'two data sets opened with applycal={case["products"]!r}'
+                            f'{" and " + repr(case["reopen"]) + " on the same capture block" if case.get("reopen") else ""}'
+                            f' and computed in one dask graph: '
                             f'{what} of data set {k} differs from what it is when computed on its own (the corrections '
                             f'of the other data set were applied)'), list(ds[0].applycal_products)
     return None, list(ds[0].applycal_products)
@@ -988,6 +999,9 @@ def run(ctx):
                    products='l1.B,l1.G', nan_gain=False, zero_gain=True, nan_bp_edges=True)]
     cases += [dict(kind='v4', pair=True, seed=ctx.rng.randrange(2 ** 31), T=ctx.rng.randint(2, 4), F=ctx.rng.randint(2, 4),
                    products=ctx.rng.choice(['l1.G', 'l1.B,l1.G']), same_cbid=bool(k)) for k in range(2)]
+    cases += [dict(kind='v4', pair=True, seed=ctx.rng.randrange(2 ** 31), T=ctx.rng.randint(2, 4), F=ctx.rng.randint(2, 4),
+                   products=a, reopen=b, same_cbid=True) for a, b in [ctx.rng.choice([('l1.G', 'l1.B'), ('l1.B,l1.G', 'l1.G'),
+                                                                                      ('l1.B', 'l1.B,l1.G')])]]
     cases += [gen_v4(ctx.rng) for _ in range(ctx.q(5, 60))]
     bad = eval_any(ctx, cases)
     if not bad and not build['build_ok']:
